@@ -208,7 +208,11 @@ class MessageSigner(object):
         Decode the internal fields of the base64-encoded signature.
         """
 
-        sig = a2b_base64(signature)
+        try:
+            sig = a2b_base64(signature)
+        except ValueError:
+            # binascii.Error (bad padding, dangling character) and the ValueError for non-ASCII text
+            raise EncodingError("signature is not base64")
         if len(sig) != 65:
             raise EncodingError("Wrong length, expected 65")
 
